@@ -155,6 +155,9 @@ struct Params {
     adj: Vec<BTreeSet<usize>>,
     /// symmetric explicit-peer edges
     explicit: Vec<(usize, usize)>,
+    /// one-way explicit peers: (a, b) = only a lists b.  b is then no mesh peer of a nor a of b,
+    /// so b's own publishes reach a through third nodes and a forwards them back to b
+    explicit1: Vec<(usize, usize)>,
     seed: u64,
     /// nodes running with `validate_messages()`
     valid: Vec<usize>,
@@ -288,6 +291,9 @@ impl World {
         for &(a, b) in &self.p.explicit.clone() {
             self.swarms[a].behaviour_mut().add_explicit_peer(&peers[b]);
             self.swarms[b].behaviour_mut().add_explicit_peer(&peers[a]);
+        }
+        for &(a, b) in &self.p.explicit1.clone() {
+            self.swarms[a].behaviour_mut().add_explicit_peer(&peers[b]);
         }
         if self.p.sub_first {
             for i in 0..n {
@@ -523,6 +529,7 @@ impl World {
             .explicit
             .iter()
             .filter_map(|&(a, b)| if a == i { Some(b) } else if b == i { Some(a) } else { None })
+            .chain(self.p.explicit1.iter().filter_map(|&(a, b)| if a == i { Some(b) } else { None }))
             .collect();
         e.sort();
         e.dedup();
@@ -810,7 +817,7 @@ fn gen_adj(rng: &mut Rng, n: usize, class: &str) -> Vec<BTreeSet<usize>> {
 fn gen_params(rng: &mut Rng, class: &str, seed: u64) -> Params {
     let n = 5 + rng.usize(6);
     // validation cases need two mesh paths to the same node: half of them on dense graphs
-    let adj_class = if class.starts_with("valid") && rng.bool() { "dense" } else { class };
+    let adj_class = if (class.starts_with("valid") || class == "xform") && rng.bool() { "dense" } else { class };
     let adj = gen_adj(rng, n, adj_class);
     let mesh = match (class, rng.below(3)) {
         ("sparse" | "xform", 0) => (2, 1, 3, 0),
@@ -820,7 +827,17 @@ fn gen_params(rng: &mut Rng, class: &str, seed: u64) -> Params {
         _ => (6, 5, 12, 2),
     };
     let mut explicit = vec![];
-    if class == "explicit" || (class == "xform" && rng.bool()) {
+    let mut explicit1 = vec![];
+    if class == "xform" {
+        for a in 0..n {
+            for &b in &adj[a] {
+                if rng.chance(1, 4) && !explicit1.contains(&(b, a)) {
+                    explicit1.push((a, b));
+                }
+            }
+        }
+    }
+    if class == "explicit" {
         for a in 0..n {
             for &b in &adj[a] {
                 if a < b && rng.chance(1, 4) {
@@ -854,6 +871,7 @@ fn gen_params(rng: &mut Rng, class: &str, seed: u64) -> Params {
         hb_ms: 30 + rng.below(970),
         adj,
         explicit,
+        explicit1,
         seed,
         valid: match class {
             "valid" => (0..n).collect(),
@@ -878,8 +896,9 @@ fn gen_params(rng: &mut Rng, class: &str, seed: u64) -> Params {
 fn header(p: &Params) -> String {
     let adj: Vec<Vec<usize>> = p.adj.iter().map(|s| s.iter().copied().collect()).collect();
     let exp: Vec<String> = p.explicit.iter().map(|(a, b)| format!("{a}-{b}")).collect();
+    let exp1: Vec<String> = p.explicit1.iter().map(|(a, b)| format!("{a}>{b}")).collect();
     format!(
-        "n={} flood={} auth={} meshn={} mesh={}.{}.{}.{} subfirst={} hbms={} seed={} adj={} explicit={} val={} score={} policy={} rejects={} xform={}",
+        "n={} flood={} auth={} meshn={} mesh={}.{}.{}.{} subfirst={} hbms={} seed={} adj={} explicit={} val={} score={} policy={} rejects={} xform={} explicit1={}",
         p.n,
         p.flood as u8,
         p.auth,
@@ -897,7 +916,8 @@ fn header(p: &Params) -> String {
         p.score as u8,
         p.policy,
         p.rejects as u8,
-        p.xform as u8
+        p.xform as u8,
+        if exp1.is_empty() { "-".to_string() } else { exp1.join(",") }
     )
 }
 
@@ -939,6 +959,16 @@ fn parse_header(h: &[String]) -> Option<Params> {
         hb_ms: kv(h, "hbms")?.parse().ok()?,
         adj,
         explicit,
+        explicit1: match kv(h, "explicit1") {
+            None | Some("-") => vec![],
+            Some(s) => s
+                .split(',')
+                .filter_map(|e| {
+                    let (a, b) = e.split_once('>')?;
+                    Some((a.parse().ok()?, b.parse().ok()?))
+                })
+                .collect(),
+        },
         seed: kv(h, "seed")?.parse().ok()?,
         valid: match kv(h, "val") {
             None | Some("-") => vec![],
